@@ -29,6 +29,8 @@ FULL = "s1t1l1c1"
 
 
 class LifeSpace(spaces.Space):
+    SINGLE_DELETION = False
+
     def __init__(self, tier):
         self.name = f"lifecycle-{tier}"
         cases = []
